@@ -399,7 +399,7 @@ func (g *gen) execFunc(fr *frame, entry *node, st0 *State) []exitRec {
 					e.vars[k] = v
 				}
 				for _, c := range ls.Invs {
-					t, err := e.trBool(c.E)
+					t, err := e.trAssume(c.E)
 					if err != nil {
 						g.errorf("%s: loop %d invariant [%s]: %v", g.name, ord, c.Label, err)
 						continue
@@ -510,7 +510,7 @@ func (g *gen) assertInvariants(fr *frame, n *node, st *State, h *ssa.BasicBlock,
 		e.vars[k] = v
 	}
 	for _, c := range ls.Invs {
-		t, err := e.trBool(c.E)
+		t, err := e.trAssert(c.E)
 		if err != nil {
 			g.errorf("%s: loop %d invariant [%s]: %v", g.name, ord, c.Label, err)
 			continue
